@@ -666,7 +666,9 @@ class Walker:
                     # (a value that already has the declared return type is handed back as it is)
                     lo, hi = rty.range()
                     if not (self.P.prove_le0(val.lin - hi, s2.facts) and self.P.prove_le0(Lin.const(lo) - val.lin, s2.facts)):
+                        v_in = val
                         val = Num(Lin.term(self.fresh("cast", repr(rty), rty.range())), ty=rty)
+                        self.emit("cast", call, s2, target=rty, arg=v_in, result=val, fromfloat=False, inrange=None)
                 res.append((s2, val))
             elif kind == "raise":
                 s2.env = dict(saved_env)
